@@ -15,6 +15,13 @@ def _run(ctx):
     with open(bad2["out"], errors="replace") as f:
         if "Invariant C23_PointOldOrNew is violated" not in f.read():
             raise lib.ToolError("the seeded fault torn_is_fatal of StoreCrash.tla is not rejected by TLC")
+    # the run after the kill (CrashRecovery.tla): the collector's copy is already new, the server says Not Modified
+    lib.tlc(ctx, "mc_crashrecovery", "CrashRecovery.tla", "MC_CrashRecovery.cfg", workers=2, timeout=600)
+    bad3 = lib.tlc(ctx, "mc_crashrecovery_bad", "CrashRecovery.tla", "MC_CrashRecovery_bad.cfg", workers=2, timeout=600,
+                   expect_ok=False, count=False)
+    with open(bad3["out"], errors="replace") as f:
+        if "Invariant C23_RunAfterKillCatchesUp is violated" not in f.read():
+            raise lib.ToolError("the seeded fault not_modified_skips_copy of CrashRecovery.tla is not rejected by TLC")
     gen = lib.tlc(ctx, "gen_storecrash", "MC_StoreCrash.tla", "Gen_StoreCrash.cfg", workers=1, timeout=600, count=False)
     beh = ctx.path("storecrash.ndjson")
     n = lib.extract_replays(gen["out"], beh)
@@ -30,10 +37,12 @@ def _run(ctx):
         "injection, at every rename / unlink / rmdir / ftruncate / mkdir call of an updating run and every write call of a run "
         "that creates point files (headers are written in pieces); power loss / fsync ordering is out of scope",
         "validation-threads = 1 so that kill points are numbered deterministically; first an uninterrupted run counts them",
-        "commands run through Operation::run in child processes of the harness, rsync served in-process",
+        "commands run through Operation::run in child processes of the harness, rsync served in-process; in the scenario "
+        "rrdp_update both child CAs live in one RRDP repository served by a file-based HTTP double of the children (ETag, 304): "
+        "the runs after the kill get Not Modified whenever the killed run had fetched the new serial (CrashRecovery.tla)",
     ]
-    rule = ("scenarios (fresh cache; update of every stored point to a newer version; never-retrieved point re-attempted; thorough adds "
-            "a point retrieved after a failed attempt and more) x every kill point the run passes; after each kill the files are "
+    rule = ("scenarios (fresh cache; update of every stored point to a newer version; never-retrieved point re-attempted; the same update through an RRDP "
+            "repository, kill points of the collector included; thorough adds a point retrieved after a failed attempt and more) x every kill point the run passes; after each kill the files are "
             "classified and must be crash states StoreCrash.tla allows, and five commands (vrps -n, vrps --update-after, vrps, "
             "validate, update) each run on a copy of the crashed cache: exit 0, each CA's payload a complete old or new version, "
             "the updating run equal to an uninterrupted one; distinct by (scenario, kill point)")
@@ -44,7 +53,7 @@ CHECKS = {
     "C23": {"run": _run, "engine": "StoreCrash",
             "technique": "TLA+ model of the store's file operations with Kill (StoreCrash.tla) checked by TLC; real process killed at every numbered kill point, crash states validated against the model, recovery commands run",
             "design_ref": "4/C23",
-            "level_text": "Every kill point the scenarios pass (about 70 in quick) is exercised with a real SIGKILL and followed by all recovery commands; "
+            "level_text": "Every kill point the scenarios pass (about 170 in quick) is exercised with a real SIGKILL and followed by all recovery commands; "
                           "TLC enumerates the crash states of the file-operation model and rejects the as_shipped status handling.",
             "level_note": "Trusted: placement of the kill points (hook H2) covers every state-changing file operation of store.rs and utils/fatal.rs; "
                           "the collector's own files (rsync copies) are not part of this property; fsync/power loss not modelled."},
